@@ -11,7 +11,10 @@
       (e4) optional arguments: a delimited argument [[ … ]] (any single-character
            delimiter pair the signature declares) written or — when optional —
            absent, an optional marker character ([*]) written or absent, and
-           whitespace in front of an argument where the argument kind allows it.
+           whitespace in front of an argument where the argument kind allows it,
+      (e5) single-token mandatory arguments: one character ([\frac12]), a control
+           sequence ([\textbf\alpha]: its own arguments are not parsed), a specials
+           sequence.
     Same conventions as the core grammar: whitespace is a FIELD of the item it
     precedes, [tree_of2] is in accumulator form (the collector's state after
     the items so far).
@@ -145,6 +148,21 @@ Fixpoint ok_item2 (cx : context) (ps : pstate) (ex : str) (i : item2) (fol : str
           | AKExpr sp, Grp2 ws _ _ =>
               (* a braced group; whitespace in front of it only if the kind allows it *)
               (sp || is_nil ws) && ok_item2 cx aps [] a fa
+          | AKExpr sp, Text2 ws [c] =>
+              (* a single character *)
+              (sp || is_nil ws) && ws_ok ws && inert cx c
+          | AKExpr _, Mac2 ws name post [] =>
+              (* a control sequence (its own arguments are not parsed) *)
+              ws_ok ws && ws_ok post && name_ok name post
+              && match get_macro_spec cx name with Some _ => true | None => false end
+              && mac_follow_ok name post (hd_error fa)
+          | AKExpr _, Spc2 ws (c :: cr) [] =>
+              (* a specials sequence *)
+              ws_ok ws && plain_start c
+              && match test_specials (map fst (cx_specials cx)) ((c :: cr) ++ fa) None with
+                 | Some sc => str_eqb sc (c :: cr)
+                 | None => false
+                 end
           | AKGroup [oc'] [cc'] _ sp, Brk2 ws oc cc b tr =>
               (* a delimited argument with the delimiters of the signature; in its body
                  (not deeper) the two delimiter characters are not text *)
@@ -249,6 +267,17 @@ Definition ok_arg2 (cx : context) (ps : pstate) (spc : argspec) (a : item2) (fa 
   let aps := apply_adelta ps (a_delta spc) in
   match a_kind spc, a with
   | AKExpr sp, Grp2 ws _ _ => (sp || is_nil ws) && ok_item2 cx aps [] a fa
+  | AKExpr sp, Text2 ws [c] => (sp || is_nil ws) && ws_ok ws && inert cx c
+  | AKExpr _, Mac2 ws name post [] =>
+      ws_ok ws && ws_ok post && name_ok name post
+      && match get_macro_spec cx name with Some _ => true | None => false end
+      && mac_follow_ok name post (hd_error fa)
+  | AKExpr _, Spc2 ws (c :: cr) [] =>
+      ws_ok ws && plain_start c
+      && match test_specials (map fst (cx_specials cx)) ((c :: cr) ++ fa) None with
+         | Some sc => str_eqb sc (c :: cr)
+         | None => false
+         end
   | AKGroup [oc'] [cc'] _ sp, Brk2 ws oc cc b tr =>
       N.eqb oc oc' && N.eqb cc cc' && delim_ok oc cc && (sp || is_nil ws) && ws_ok ws && ws_ok tr
       && ok_items2 cx aps [oc; cc] b (tr ++ cc :: fa)
@@ -302,6 +331,11 @@ Fixpoint node_of2 (cx : context) (ps : pstate) (p0 : nat) (i : item2) {struct i}
            | AKChars _ _ full, Text2 _ cs =>
                let cn := mk_chars aps q (q + length cs) cs in
                Some (if full then mk_nodelist None None [Some cn] else cn)
+           | AKExpr _, Text2 _ cs => Some (mk_chars aps q (q + length cs) cs)
+           | AKExpr _, Mac2 _ name post _ =>
+               Some (NMacro q (q + 1 + length name + length post) (ps_mode aps) name post (Some ([], [])))
+           | AKExpr _, Spc2 _ chars _ =>
+               Some (NSpecials q (q + length chars) (ps_mode aps) chars (Some ([], [])))
            | _, _ => node_of2 cx aps q a
            end :: fst rr, snd rr)
       | _, _ => ([], p)
@@ -390,6 +424,11 @@ Definition arg_node2 (cx : context) (ps : pstate) (spc : argspec) (p : nat) (a :
   | AKChars _ _ full, Text2 _ cs =>
       let cn := mk_chars aps q (q + length cs) cs in
       Some (if full then mk_nodelist None None [Some cn] else cn)
+  | AKExpr _, Text2 _ cs => Some (mk_chars aps q (q + length cs) cs)
+  | AKExpr _, Mac2 _ name post _ =>
+      Some (NMacro q (q + 1 + length name + length post) (ps_mode aps) name post (Some ([], [])))
+  | AKExpr _, Spc2 _ chars _ =>
+      Some (NSpecials q (q + length chars) (ps_mode aps) chars (Some ([], [])))
   | _, _ => node_of2 cx aps q a
   end.
 
